@@ -788,7 +788,8 @@ class TensorDiagram:
     def copy(self) -> TensorDiagram:
         result = TensorDiagram()
         result._nodes = self._nodes.copy()
-        result._unused_indices = self._unused_indices.copy()
+        # the lists of unused indices are changed by add_edge: the copy needs its own
+        result._unused_indices = [tuple(list(x) for x in unused) for unused in self._unused_indices]
         result._node_positions = self._node_positions.copy()
         result._contraction_list = self._contraction_list.copy()
         result._index_count = self._index_count
